@@ -370,3 +370,8 @@ Theorem C20_tools_causal : forall t zero xs ys k,
   multi_model t zero xs = Ok ys -> multi_model t zero (firstn k xs) = Ok (firstn k ys).
 Proof. exact multi_model_causal. Qed.
 Print Assumptions C20_tools_causal.
+
+(* long-run family: its linear-time checker is the multi-use checker *)
+Theorem C20_holds_long_eq : forall c, holds_long c = holds_multi c.
+Proof. exact holds_long_eq. Qed.
+Print Assumptions C20_holds_long_eq.
